@@ -207,6 +207,16 @@ def require_mc_ok(ctx, res, what):
               depth=res["depth"], wall_s=res["wall_s"])
 
 
+def load_factor():
+    """>= 1.0; grows with the machine's 1-minute load average relative to its cores.  Drivers multiply the
+    periods they grant a running tracker for timer-driven work (cleaning, reload) by it, so that an
+    overloaded machine does not turn a late timer into a wrong observation."""
+    try:
+        return max(1.0, min(4.0, os.getloadavg()[0] / max(1, os.cpu_count() or 1)))
+    except OSError:
+        return 1.0
+
+
 def coverage_zero_actions(out, module):
     """Names of top-level actions of `module` with zero count in -coverage output."""
     zero = []
